@@ -67,7 +67,7 @@ theorem exec_joinRet (P : Prog) (s s' : State) (t : Nat) (i : Instr) (rest : Lis
     first
     | (exact absurd hl (List.ne_cons_self _ _).symm)
     | (simp at hl; done)
-    | (simp at hl; obtain ⟨rfl, rfl⟩ := hl; rename_i hh; have hne := Ne.symm hh.2; simp_all))
+    | (simp at hl; obtain ⟨rfl, rfl⟩ := hl; rename_i h1 _ _; have hne := Ne.symm h1; simp_all))
 
 /-- the possible shapes of one micro-step of thread `t`, seen on its own record and the log -/
 inductive OwnStep (s s' : State) (t : Nat) : Prop where
